@@ -419,6 +419,7 @@ Section Hist.
     - split_step; auto.
     - split_step; auto.
     - split_step; auto.
+    - auto.
   Qed.
 
   Lemma gcsel_step s x p :
@@ -446,6 +447,7 @@ Section Hist.
     - split_step; auto.
     - split_step; auto.
     - split_step; auto.
+    - auto.
   Qed.
 
   Lemma diskedit_out_of_cat s es p ts :
@@ -841,6 +843,7 @@ Proof.
   - simpl in H2. destruct (aget N.eqb q (queries s)) as [[? []]|]; simpl in H2; congruence.
   - simpl in H2. destruct (aget N.eqb q (queries s)) as [[? []]|]; simpl in H2; congruence.
   - simpl in H2. destruct (aget N.eqb q (queries s)) as [[? []]|]; simpl in H2; congruence.
+  - simpl in H2. congruence.
 Qed.
 
 (* ------------------------------------------------------------------ *)
